@@ -3,12 +3,14 @@
 package ice
 
 import (
+	"bytes"
 	"github.com/RoaringBitmap/roaring"
 	segment "github.com/blugelabs/bluge_segment_api"
 )
 
 func init() {
 	vpRegister("vpH_C16_stats", vpH_C16_stats)
+	vpRegister("vpH_C16_afterfail", vpH_C16_afterfail)
 	vpRegister("vpH_K11_statsmerge", vpH_K11_statsmerge)
 	vpRegister("vpH_C17_assoc", vpH_C17_assoc)
 	vpRegister("vpH_C18_match", vpH_C18_match)
@@ -33,6 +35,39 @@ func vpStatsCheck(tag string, seg segment.Segment, exp *vpExpect, merged bool) {
 }
 
 // C16: statistics of built, loaded and merged segments; field length = sum of term frequencies.
+// C16 after a failed merge: a merge of more documents into a writer that fails
+// in the middle of the file, then the merge under test in the same process
+// (recycled scratch state): its statistics describe its own documents only.
+func vpH_C16_afterfail() {
+	g := vpNewGen(0)
+	a := []*vpDoc{g.doc(3, 0), g.doc(5, 1)}
+	b := []*vpDoc{g.doc(5, 0)}
+	g.done()
+	vpSetLengths(a)
+	vpSetLengths(b)
+	sa, sb := vpBuild(a, 1025), vpBuild(b, 2)
+	vpPoolReuse(true)
+	big := []segment.Segment{sa, sb, sa, sa}
+	var ref bytes.Buffer
+	_, err := Merge(big, make([]*roaring.Bitmap, 4), 1).WriteTo(&ref, nil)
+	vpMust(err, "fault-free merge")
+	limit := uint64(ref.Len()) * uint64(2+vpChoice("fail-at", 3)) / 5
+	fw := &vpFailWriter{limit: limit}
+	_, err = Merge(big, make([]*roaring.Bitmap, 4), 1).WriteTo(fw, nil)
+	vpAssert(err != nil, "a failing writer is reported as an error")
+	drops := make([]*roaring.Bitmap, 2)
+	dropped := make([][]bool, 2)
+	drops[0], dropped[0] = vpDrops("m", len(a))
+	drops[1], dropped[1] = vpDrops("m", len(b))
+	surv := vpSurvivors([][]*vpDoc{a, b}, dropped)
+	vpAssume(len(surv) > 0)
+	mb, _ := vpMergeBytes([]*Segment{sa, sb}, drops, 1025)
+	vpPoolReuse(false)
+	vpNote("feat:merged-stats")
+	vpStatsCheck("merged after a failed merge", vpLoad(mb), vpBuildExpect(surv, vpFieldNames(a, b)), true)
+	vpReach("C16 afterfail end")
+}
+
 func vpH_C16_stats() {
 	g := vpNewGen(0)
 	var a, b []*vpDoc
@@ -162,9 +197,12 @@ func vpH_C18_match() {
 	exp := vpBuildExpect(held, vpFieldNames(docs))
 	fieldsTab := []string{"a", "b", "_id", "nofield", ""}
 	termsTab := []string{"x", "", "d0", "absent"}
-	n := 1 + vpChoice("len", 2)
-	if vpThorough() {
-		n = 1 + vpChoice("len3", 3)
+	n := 1 + vpChoice("len", 3)
+	if n == 3 && !vpThorough() {
+		// quick tier: lists of three terms over reduced tables (known field,
+		// unknown field, another known field; a general and a single-document term)
+		fieldsTab = []string{"a", "nofield", "_id"}
+		termsTab = []string{"x", "d0"}
 	}
 	var list []segment.Term
 	want := map[uint64]bool{}
